@@ -31,6 +31,15 @@ pub fn addr(a: i64) -> Multiaddr {
     }
 }
 
+pub fn abs_addr_int(s: &str) -> i64 {
+    let base = s.split("/p2p/").next().unwrap();
+    if base == "/ip4/10.0.0.100/tcp/1" {
+        100
+    } else {
+        base.strip_prefix("/ip4/10.0.1.").and_then(|r| r.strip_suffix("/tcp/4001")).and_then(|n| n.parse().ok()).unwrap_or(-1)
+    }
+}
+
 fn cond(s: &str) -> PeerCondition {
     match s {
         "Always" => PeerCondition::Always,
@@ -46,10 +55,14 @@ fn plan_of(v: &Value, i: usize) -> Plan {
     Plan {
         deny_pending: p.and_then(|p| p.get(0)).and_then(|b| b.as_bool()).unwrap_or(false),
         deny_established: p.and_then(|p| p.get(1)).and_then(|b| b.as_bool()).unwrap_or(false),
-        extra_addrs: if i == 0 {
-            v.get("beh_addrs").and_then(|a| a.as_array()).map(|a| a.iter().map(|x| addr(x.as_i64().unwrap())).collect()).unwrap_or_default()
-        } else {
-            vec![]
+        extra_addrs: match v.get("beh_addrs").and_then(|a| a.as_array()) {
+            // per-field lists [[..],[..],[..]]
+            Some(a) if a.first().map(|x| x.is_array()).unwrap_or(false) => {
+                a.get(i).and_then(|l| l.as_array()).map(|l| l.iter().map(|x| addr(x.as_i64().unwrap())).collect()).unwrap_or_default()
+            }
+            // one list: returned by the first field only
+            Some(a) if i == 0 => a.iter().map(|x| addr(x.as_i64().unwrap())).collect(),
+            _ => vec![],
         },
     }
 }
@@ -185,8 +198,11 @@ where
                     Ok(Err(e)) => vswarm::probe::dial_error_kind(e).to_string(),
                     Err(m) => format!("panic:{m}"),
                 };
+                let dialed_abs: Vec<i64> = dialed.iter().map(|s| abs_addr_int(s)).collect();
                 self.events.push(json!({"e": "dial", "id": id, "peer": peer, "cond": c.get("cond").cloned().unwrap_or(json!("Always")),
-                    "addrs": addrs, "res": r, "slots": (before..after).collect::<Vec<_>>(), "dialed": dialed, "ncbs": cbs.len()}));
+                    "addrs": addrs, "res": r, "slots": (before..after).collect::<Vec<_>>(), "dialed": dialed, "ncbs": cbs.len(),
+                    "extend": c.get("extend").and_then(|x| x.as_bool()).unwrap_or(false), "beh_addrs": c.get("beh_addrs").cloned().unwrap_or(json!([])),
+                    "dialed_abs": dialed_abs}));
                 self.events.extend(cbs);
                 self.events.push(json!({"e": "dialRet", "id": id, "res": r}));
             }
@@ -281,6 +297,37 @@ where
                     }
                 }
                 self.events.push(json!({"e": "emitQueued", "n": n}));
+            }
+            "hEmit" => {
+                // the handler of field `field` on connection `id` emits an event tagged with its own field name
+                let id = vcommon::n(c, "id");
+                let f = vcommon::n(c, "field") as usize;
+                let mut applied = false;
+                self.seq += 1;
+                let seq = self.seq;
+                if let Some(cid) = self.rig.ids.conn_of(id) {
+                    let pb = self.behs()[f];
+                    if let Some(h) = pb.ctl.handler(cid) {
+                        h.lock().unwrap().to_behaviour.push_back(json!({"from": pb.name, "n": seq}));
+                        applied = true;
+                    }
+                    pb.ctl.wake_handler(cid);
+                }
+                self.events.push(json!({"e": "hEmit", "id": id, "field": f, "applied": applied}));
+            }
+            "emitF" => {
+                // field `field` notifies ITS handler on connection `id`
+                let id = vcommon::n(c, "id");
+                let f = vcommon::n(c, "field") as usize;
+                self.seq += 1;
+                let seq = self.seq;
+                if let Some(cid) = self.rig.ids.conn_of(id) {
+                    let pb = self.behs()[f];
+                    let ev = json!({"to": pb.name, "seq": seq});
+                    let peer = vcommon::n(c, "peer") as usize;
+                    pb.ctl.emit(ToSwarm::NotifyHandler { peer_id: self.rig.ids.peer_id(peer), handler: libp2p_swarm::NotifyHandler::One(cid), event: ev });
+                }
+                self.events.push(json!({"e": "emitF", "id": id, "field": f}));
             }
             "poll" => {
                 let r = vcommon::guard(|| self.rig.poll_quiescent());
